@@ -15,9 +15,22 @@ use crate::util::{hex, monitored, ncpu, par_for, rng_for, short_loc, unhex, Ctx,
 
 /// One triple through the real verifier and the reference. Returns the reference verdict
 /// (None if the triple is outside the quantifier: a decoder rejected the bytes).
+thread_local! {
+    /// the triple verified just before on this thread (variant, msg, sig, pk): findings that
+    /// depend on the call sequence need it to replay
+    static PREVIOUS: std::cell::RefCell<Option<(String, Vec<u8>, Vec<u8>, Vec<u8>)>> = std::cell::RefCell::new(None);
+}
+
 pub fn check_triple<V: Fv>(class: &str, msg: &[u8], sigb: &[u8], pkb: &[u8], rep: &mut Report) -> Option<(bool, VerifyTrace)> {
     rep.evaluations += 1;
-    let replay = || json!({"variant": V::NAME, "class": class, "msg": hex(msg), "sig": hex(sigb), "pk": hex(pkb)});
+    let prev = PREVIOUS.with(|p| p.borrow_mut().replace((V::NAME.to_string(), if msg.len() <= 4096 { msg.to_vec() } else { vec![] }, sigb.to_vec(), pkb.to_vec())));
+    let replay = || {
+        let mut j = json!({"variant": V::NAME, "class": class, "msg": hex(msg), "sig": hex(sigb), "pk": hex(pkb)});
+        if let Some((v, m, s, p)) = &prev {
+            j["verified_just_before"] = json!({"variant": v, "msg": hex(m), "sig": hex(s), "pk": hex(p)});
+        }
+        j
+    };
     let decoded = monitored(|| (V::sig_from_bytes(sigb), V::pk_from_bytes(pkb)));
     let (sig, pk) = match decoded {
         Err(p) => {
@@ -486,7 +499,214 @@ fn overflow_v<V: Fv>(ctx: &Ctx, rep: &mut Report) {
     rep.merge(r);
 }
 
+/// x^{-j} * d in Z_q[X]/(X^n+1), times eps.
+fn div_monomial(d: &[i64], j: usize, eps: i64) -> Vec<i64> {
+    let n = d.len();
+    let mut h = vec![0i64; n];
+    for m in 0..n {
+        // x^m * x^{-j}
+        if m >= j {
+            h[m - j] = spec::modq(eps * d[m]);
+        } else {
+            h[n + m - j] = spec::modq(-eps * d[m]);
+        }
+    }
+    h
+}
+
+/// Fingerprint-colliding pairs in call sequences (see collide.rs):
+///  (i)  two DIFFERENT public keys whose encodings (or coefficient lists) share a cheap
+///       fingerprint, each with a valid signature on the same message: A, B, A, and A's
+///       signature under B's key;
+///  (ii) two DIFFERENT messages whose (salt || message) strings share a fingerprint: a valid
+///       triple for the first, then the second message with the same signature and key
+///       (Algorithm 16 rejects), then the first again.
+/// All triples are crafted (s2 = +-x^j, s1 tiny, h = (c - s1)/s2), so tens of thousands of
+/// candidates cost nothing; the reference verifier decides every verdict.
+fn collisions_v<V: Fv>(ctx: &Ctx, rep: &mut Report) {
+    let n = V::N;
+    let mut rng = rng_for(ctx.seed, &format!("c02-collide-{}", V::NAME));
+    let salt = rand_bytes(&mut rng, 40);
+    let msg = b"fingerprint collisions".to_vec();
+    let mut rm = salt.clone();
+    rm.extend_from_slice(&msg);
+    let c = spec::hash_to_point(&rm, n);
+    // (i) candidate public keys: parameters only are stored
+    let ncand = ctx.sz(240_000, 1_500_000);
+    let params: Vec<(usize, i64, u64)> = (0..ncand).map(|_| (rng.gen_range(0..n), if rng.gen() { 1 } else { -1 }, rng.gen())).collect();
+    let make = |p: &(usize, i64, u64)| -> (Vec<i64>, Vec<i64>, Vec<i64>) {
+        let mut r = rng_for(p.2, "c02-collide-s1");
+        let mut s1 = vec![0i64; n];
+        for _ in 0..4 {
+            s1[r.gen_range(0..n)] = r.gen_range(-2..=2);
+        }
+        let d: Vec<i64> = (0..n).map(|i| spec::modq(c[i] - s1[i])).collect();
+        let mut s2 = vec![0i64; n];
+        s2[p.0] = p.1;
+        (s1, s2, div_monomial(&d, p.0, p.1))
+    };
+    let coef_names: [&'static str; 6] = ["coef-sum-u32", "coef-sum-u16", "coef-xor", "coef-sum-mod-q", "coef-first", "coef-first-last"];
+    // fingerprints are computed in parallel chunks, collisions found on the merged table
+    let chunks = 64;
+    let tables: std::sync::Mutex<Vec<(usize, [u64; 13], [u64; 6])>> = std::sync::Mutex::new(Vec::with_capacity(ncand));
+    par_for(chunks, ncpu(), |ch, _| {
+        let mut local = vec![];
+        for i in (ch..ncand).step_by(chunks) {
+            let (_, _, h) = make(&params[i]);
+            let pkb = spec::pk_encode(&h);
+            let sum: u64 = h.iter().map(|&x| x as u64).sum();
+            let cf = [sum & 0xffff_ffff, sum & 0xffff, h.iter().fold(0u64, |a, &x| a ^ x as u64), sum % spec::Q as u64, h[0] as u64, ((h[0] as u64) << 16) | h[n - 1] as u64];
+            local.push((i, crate::collide::fingerprints(&pkb), cf));
+        }
+        tables.lock().unwrap().extend(local);
+    });
+    let mut table = tables.into_inner().unwrap();
+    table.sort_by_key(|x| x.0);
+    let mut found: Vec<(String, usize, usize)> = vec![];
+    for k in 0..13 + 6 {
+        let name = if k < 13 { format!("pk-bytes-{}", crate::collide::NAMES[k]) } else { format!("pk-{}", coef_names[k - 13]) };
+        let mut seen: std::collections::HashMap<u64, usize> = std::collections::HashMap::new();
+        let mut cnt = 0;
+        for (i, fb, fc) in table.iter() {
+            let v = if k < 13 { fb[k] } else { fc[k - 13] };
+            if let Some(&j) = seen.get(&v) {
+                // different shifts: with the same s2 the two keys differ by a few units only and
+                // a stale key would give the same verdict (nothing to observe)
+                if params[j].0 != params[*i].0 {
+                    found.push((name.clone(), j, *i));
+                    cnt += 1;
+                    if cnt >= 3 {
+                        break;
+                    }
+                }
+            } else {
+                seen.insert(v, *i);
+            }
+        }
+    }
+    drop(table);
+    for (name, a, b) in found {
+        let (_, s2a, ha) = make(&params[a]);
+        let (_, s2b, hb) = make(&params[b]);
+        if ha == hb {
+            continue;
+        }
+        let l = V::SIG_LEN - 41;
+        let (sa, sb) = (build_sig::<V>(&salt, &spec::compress(&s2a, l).unwrap()), build_sig::<V>(&salt, &spec::compress(&s2b, l).unwrap()));
+        let (pa, pb) = (spec::pk_encode(&ha), spec::pk_encode(&hb));
+        let cls = format!("collide-{}", name);
+        let o1 = check_triple::<V>(&cls, &msg, &sa, &pa, rep);
+        let o2 = check_triple::<V>(&cls, &msg, &sb, &pb, rep);
+        check_triple::<V>(&cls, &msg, &sa, &pa, rep);
+        check_triple::<V>(&format!("{}-cross", cls), &msg, &sa, &pb, rep);
+        check_triple::<V>(&cls, &msg, &sb, &pb, rep);
+        if !matches!((o1, o2), (Some((true, _)), Some((true, _)))) {
+            rep.inconclusive(format!("collision triple construction not accepted by the reference ({})", name));
+        }
+        rep.count("pk_fingerprint_colliding_pairs", 1);
+        rep.count(&format!("collide_{}", name), 1);
+        rep.nontrivial(format!("{}|{}|{}|{}", V::NAME, name, a, b).as_bytes());
+    }
+    // (ii) colliding messages under one salt
+    let nm = ctx.sz(600_000, 3_000_000);
+    let strings: Vec<Vec<u8>> = (0..nm)
+        .map(|_| {
+            let m: [u8; 8] = rng.gen();
+            let mut v = salt.clone();
+            v.extend_from_slice(&m);
+            v
+        })
+        .collect();
+    for (name, a, b) in crate::collide::pairs(&strings, 2) {
+        if name == "first8" {
+            continue; // the salt: every pair agrees there
+        }
+        let (ma, mb) = (&strings[a][40..], &strings[b][40..]);
+        let ca = spec::hash_to_point(&strings[a], n);
+        let j = rng.gen_range(0..n);
+        let mut s1 = vec![0i64; n];
+        s1[rng.gen_range(0..n)] = 1;
+        let d: Vec<i64> = (0..n).map(|i| spec::modq(ca[i] - s1[i])).collect();
+        let mut s2 = vec![0i64; n];
+        s2[j] = 1;
+        let h = div_monomial(&d, j, 1);
+        let sg = build_sig::<V>(&salt, &spec::compress(&s2, V::SIG_LEN - 41).unwrap());
+        let pk = spec::pk_encode(&h);
+        let cls = format!("collide-msg-{}", name);
+        let o1 = check_triple::<V>(&cls, ma, &sg, &pk, rep);
+        let o2 = check_triple::<V>(&format!("{}-other-message", cls), mb, &sg, &pk, rep);
+        check_triple::<V>(&cls, ma, &sg, &pk, rep);
+        let (v1, v2) = (o1.map(|x| x.0), o2.map(|x| x.0));
+        if (v1, v2) != (Some(true), Some(false)) {
+            rep.inconclusive(format!("message collision construction: reference verdicts {:?} / {:?}", v1, v2));
+        }
+        rep.count("message_fingerprint_colliding_pairs", 1);
+        rep.nontrivial(format!("{}|msg|{}|{}|{}", V::NAME, name, a, b).as_bytes());
+    }
+}
+
+/// Boundary operands in the NTT domain, all three at the same index: valid triples with
+/// s2 = b (a constant, NTT = b everywhere), s1 = a (constant), h = (c - a)/b, for salts searched
+/// so that NTT(c) holds a + b*v at some index; then NTT(h) = v there, for every v in a set of
+/// boundary residues. verify's pointwise arithmetic sees (c^, s2^, h^) = (a + b v, b, v).
+fn ntt_boundary_v<V: Fv>(ctx: &Ctx, rep: &mut Report) {
+    let n = V::N;
+    let q = spec::Q;
+    let psi = spec::find_psi(n);
+    let vals = [0i64, 1, 2, q - 1, q - 2, (q - 1) / 2, (q + 1) / 2];
+    let mut targets: Vec<(i64, i64, i64, i64)> = vec![]; // (a, b, v, needed c^)
+    for a in [0i64, 1, -1, 2, -2] {
+        for b in [1i64, -1, 2, -2] {
+            for v in vals {
+                targets.push((a, b, v, spec::modq(a + b * v)));
+            }
+        }
+    }
+    let msg = b"ntt boundary".to_vec();
+    let mut todo: Vec<bool> = vec![true; targets.len()];
+    let mut rng = rng_for(ctx.seed, &format!("c02-nttb-{}", V::NAME));
+    let max_salts = ctx.sz(120, 600);
+    for _ in 0..max_salts {
+        if !todo.iter().any(|&t| t) {
+            break;
+        }
+        let salt = rand_bytes(&mut rng, 40);
+        let mut rm = salt.clone();
+        rm.extend_from_slice(&msg);
+        let c = spec::hash_to_point(&rm, n);
+        let chat = spec::dft_q(&c, psi);
+        let present: std::collections::HashSet<i64> = chat.iter().cloned().collect();
+        for (ti, &(a, b, v, need)) in targets.iter().enumerate() {
+            if !todo[ti] || !present.contains(&need) {
+                continue;
+            }
+            todo[ti] = false;
+            let binv = spec::powm(spec::modq(b), q - 2);
+            let h: Vec<i64> = (0..n).map(|i| spec::modq((c[i] - if i == 0 { a } else { 0 }) * binv)).collect();
+            let mut s2 = vec![0i64; n];
+            s2[0] = b;
+            let sg = build_sig::<V>(&salt, &spec::compress(&s2, V::SIG_LEN - 41).unwrap());
+            let out = check_triple::<V>(&format!("ntt-boundary-c{}-s{}-h{}", need, spec::modq(b), v), &msg, &sg, &spec::pk_encode(&h), rep);
+            if !matches!(out, Some((true, _))) {
+                rep.inconclusive(format!("NTT boundary construction not accepted by the reference (a={}, b={}, v={})", a, b, v));
+            }
+            rep.count("ntt_boundary_triples", 1);
+            if need == 0 || need == q - 1 {
+                rep.count("ntt_boundary_triples_with_extreme_challenge", 1);
+            }
+            rep.nontrivial(format!("{}|nttb|{}|{}|{}", V::NAME, a, b, v).as_bytes());
+        }
+    }
+}
+
 pub fn boundary(ctx: &Ctx, rep: &mut Report) {
+    collisions_v::<F512>(ctx, rep);
+    collisions_v::<F1024>(ctx, rep);
+    rep.require("pk_fingerprint_colliding_pairs", 20);
+    rep.require("message_fingerprint_colliding_pairs", 10);
+    ntt_boundary_v::<F512>(ctx, rep);
+    ntt_boundary_v::<F1024>(ctx, rep);
+    rep.require("ntt_boundary_triples", 200);
     overflow_v::<F512>(ctx, rep);
     overflow_v::<F1024>(ctx, rep);
     rep.require("overflow_layout_triples", 20);
@@ -509,6 +729,18 @@ pub fn boundary(ctx: &Ctx, rep: &mut Report) {
 pub fn replay(r: &Value) -> bool {
     fn go<V: Fv>(r: &Value) -> bool {
         let mut rep = Report::new();
+        // a sequence-dependent finding: its predecessor first, on this thread (the verdict on
+        // the predecessor is not part of this replay)
+        let p = &r["verified_just_before"];
+        if p.is_object() {
+            let mut scratch = Report::new();
+            let (m, s, k) = (unhex(p["msg"].as_str().unwrap_or("")), unhex(p["sig"].as_str().unwrap_or("")), unhex(p["pk"].as_str().unwrap_or("")));
+            if p["variant"] == "falcon512" {
+                check_triple::<F512>("predecessor", &m, &s, &k, &mut scratch);
+            } else {
+                check_triple::<F1024>("predecessor", &m, &s, &k, &mut scratch);
+            }
+        }
         let out = check_triple::<V>(
             r["class"].as_str().unwrap_or("replay"),
             &unhex(r["msg"].as_str().unwrap()),
